@@ -6,6 +6,7 @@ import (
 	"fmt"
 	tmtypes "github.com/tendermint/tendermint/types"
 	"math/big"
+	"os"
 	"sort"
 	"strconv"
 	"strings"
@@ -128,7 +129,7 @@ func NewWorldAccts(names []string, acctsOf func(string) []Acct) *World {
 			}
 			wr := w.deployERC20(c)
 			w.Wrap[n][d] = wr
-			must(c.App.AggregateKeeper.RegisterERC20Trace(c.Ctx(), wr, strings.ToLower(w.Origin[d].String()), w.ID[d], 0))
+			must(c.App.AggregateKeeper.RegisterERC20Trace(c.Ctx(), wr, strings.ToLower(w.Origin[d].String()), w.ID[d], worldScale()))
 			r := c.DeliverEth(c.Accts[AcctUser], addrp(wr), nil, mustPack(erc20ABI, "approve", endpAddr, big.NewInt(1_000_000)))
 			if !r.OK() {
 				panic("approve failed")
@@ -945,11 +946,12 @@ func (w *World) Project(n string) M {
 		seq[d] = ns
 		cseq[d] = w.viewBig(c, packetABI, packetAddr, "getNextSequenceSend", did)
 		out[d] = w.viewBig(c, endpointABI, endpAddr, "outTokens", w.Origin[n], did)
-		bind[d] = w.bindAmount(c, w.Wrap[n][d], did)
-		wbal[d] = w.viewBig(c, erc20ABI, w.Wrap[n][d], "balanceOf", user.Eth)
-		wsup[d] = w.viewBig(c, erc20ABI, w.Wrap[n][d], "totalSupply")
-		wlock[d] = w.viewBig(c, erc20ABI, w.Wrap[n][d], "balanceOf", endpAddr) + w.viewBig(c, erc20ABI, w.Wrap[n][d], "balanceOf", packetAddr) +
-			w.viewBig(c, erc20ABI, w.Wrap[n][d], "balanceOf", common.HexToAddress(syscontracts.AgentContractAddress))
+		// wrapped tokens are bound with a scale: 10^scale wrapped units stand for one unit of the origin token
+		bind[d] = unscale(w.bindAmount(c, w.Wrap[n][d], did))
+		wbal[d] = unscale(w.viewBig(c, erc20ABI, w.Wrap[n][d], "balanceOf", user.Eth))
+		wsup[d] = unscale(w.viewBig(c, erc20ABI, w.Wrap[n][d], "totalSupply"))
+		wlock[d] = unscale(w.viewBig(c, erc20ABI, w.Wrap[n][d], "balanceOf", endpAddr) + w.viewBig(c, erc20ABI, w.Wrap[n][d], "balanceOf", packetAddr) +
+			w.viewBig(c, erc20ABI, w.Wrap[n][d], "balanceOf", common.HexToAddress(syscontracts.AgentContractAddress)))
 		for s := int64(1); s < ns; s++ {
 			status = append(status, []interface{}{n, d, s, w.viewBig(c, packetABI, packetAddr, "getAckStatus", did, uint64(s))})
 			fo, err := c.View(packetABI, packetAddr, "packetFees", []byte(did+"/"+strconv.FormatInt(s, 10)))
@@ -1009,4 +1011,25 @@ func (w *World) ValueDigest(n string) string {
 // FullDigest covers everything a rejected message must leave unchanged.
 func (w *World) FullDigest(n string) string {
 	return w.Chains[n].Digest("xibc", "evm", "bank", "aggregate", "staking", "gov", "distribution", "ibc", "transfer")
+}
+
+// unscale maps an amount of wrapped units to origin units (-999: not a whole number of origin units)
+func unscale(v int64) int64 {
+	f := int64(1)
+	for i := uint8(0); i < worldScale(); i++ {
+		f *= 10
+	}
+	if v < 0 {
+		return v
+	}
+	if v%f != 0 {
+		return -999
+	}
+	return v / f
+}
+
+// worldScale: the scale with which wrapped tokens are bound to their origin (VERIF_XIBC_SCALE, default 0)
+func worldScale() uint8 {
+	n, _ := strconv.Atoi(os.Getenv("VERIF_XIBC_SCALE"))
+	return uint8(n)
 }
